@@ -195,9 +195,16 @@ func concCmd(args []string) error {
 			}
 		}
 		eng := interpreter.NewEngine()
-		run := func(c vmCase) string {
-			unlock, lock := toBytes(c.Unlock), toBytes(c.Lock)
-			us, ls := bscript.NewFromBytes(unlock), bscript.NewFromBytes(lock)
+		// the script objects of a case are built once and shared by every transaction (a distinct *bt.Tx per
+		// execution) that is validated against them, sequentially and from several goroutines at once
+		type sharedScripts struct{ us, ls *bscript.Script }
+		sh := make([]sharedScripts, len(cases))
+		for i, c := range cases {
+			sh[i] = sharedScripts{bscript.NewFromBytes(toBytes(c.Unlock)), bscript.NewFromBytes(toBytes(c.Lock))}
+		}
+		runIdx := func(i int) string {
+			c := cases[i]
+			us, ls := sh[i].us, sh[i].ls
 			tx := &bt.Tx{Version: c.Ver, LockTime: c.Lt}
 			in := &bt.Input{SequenceNumber: c.Seq, UnlockingScript: us}
 			_ = in.PreviousTxIDAdd(make([]byte, 32))
@@ -219,30 +226,36 @@ func concCmd(args []string) error {
 			return res
 		}
 		seq := make([]string, len(cases))
-		for i, c := range cases {
-			seq[i] = run(c)
-		}
-		con := make([]string, len(cases))
-		var wg sync.WaitGroup
-		idx := make(chan int, len(cases))
 		for i := range cases {
-			idx <- i
+			seq[i] = runIdx(i)
 		}
-		close(idx)
+		const replicas = 3
+		con := make([][replicas]string, len(cases))
+		var wg sync.WaitGroup
+		type job struct{ i, r int }
+		jobs := make(chan job, replicas*len(cases))
+		for i := range cases {
+			for r := 0; r < replicas; r++ {
+				jobs <- job{i, r}
+			}
+		}
+		close(jobs)
 		for g := 0; g < *goroutines; g++ {
 			wg.Add(1)
 			go func() {
 				defer wg.Done()
-				for i := range idx {
-					con[i] = run(cases[i])
+				for j := range jobs {
+					con[j.i][j.r] = runIdx(j.i)
 				}
 			}()
 		}
 		wg.Wait()
 		mism := 0
 		for i := range cases {
-			if seq[i] != con[i] {
-				mism++
+			for r := 0; r < replicas; r++ {
+				if seq[i] != con[i][r] {
+					mism++
+				}
 			}
 		}
 		b, _ := json.Marshal(Ev{"ev": "engine", "n": len(cases), "mismatches": mism, "g": *goroutines})
